@@ -1,4 +1,5 @@
 import RodbusModel.Lemmas.ClientDrain
+import RodbusModel.Gen.Tables
 /-
   C10  Every client request completes exactly once, under every interleaving of replies, errors,
   timeouts, disable, reconnect, shutdown and handle drop; none is lost, completed twice or left
@@ -312,6 +313,29 @@ theorem error_meaning_shutdown_partial {σ : Type} (s : State σ) (st : Step) (r
 
 
 /-! ### non-vacuity -/
+
+
+/-! ## Which request errors end the session: regenerated from client/task.rs -/
+
+/-- the Rust variant of a request result -/
+def Res.variant : Res → String
+  | .ok _ => "Ok"
+  | .exc _ => "Exception"
+  | .badResp => "BadResponse"
+  | .badReq _ => "BadRequest"
+  | .bf _ => "BadFrame"
+  | .io _ => "Io"
+  | .internal => "Internal"
+  | .timeout => "ResponseTimeout"
+  | .noConn => "NoConnection"
+  | .shutdown => "Shutdown"
+
+/-- `SessionError::from_request_err` (its arms are regenerated from the Rust source on every run):
+    a request result ends the session exactly when the table lists its variant — I/O errors and bad
+    frames, nothing else (in particular not a timeout, an exception or a bad response). -/
+theorem session_ending_table_correct (r : Res) :
+    r.sessionEnd.isSome = (Gen.sessionEnding.lookup r.variant).isSome := by
+  cases r <;> simp only [Res.sessionEnd, Res.variant, Option.isSome_some, Option.isSome_none] <;> decide
 
 namespace Example
 
